@@ -750,6 +750,118 @@ def gen_divchange(values=DIVCHANGE_VALUES, triples=((2, 3, 4), (4, 6, 12), (12, 
                            tag="divchange seq=%s where=%s pickup=%s" % (list(seq), where, pickup))
 
 
+# quarter-map kinds of one part in the sub-space tempo-parts: ((musical quarter from which it holds, divisions), ...);
+# the first entry holds from the start of the part (also through a pickup); quarter 0 = first downbeat
+TEMPO_KINDS = [((0, 1),), ((0, 2),), ((0, 3),), ((0, 4),), ((0, 4), (2, 6)), ((0, 3), (2, 1)), ((0, 6), (1, 4))]
+TEMPO_KINDS_MORE = [((0, 6),), ((0, 12),), ((0, 2), (2, 3)), ((0, 3), (2, 2)), ((0, 6), (2, 4)), ((0, 1), (2, 4)),
+                    ((0, 2), (1, 3)), ((0, 12), (3, 1))]
+TEMPO_TRIPLES = [(3, 2, 0), (2, 3, 1), (0, 6, 2), (1, 2, 3), (4, 1, 5), (2, 2, 1)]  # indices into TEMPO_KINDS
+TEMPO_END = 4  # two bars of 2/4 after the first downbeat
+
+
+def tempo_bpm(u):
+    """tempo value as a function of the musical position only (two parts that both carry a mark at one musical
+    position agree on its value): 60 bpm at quarter -1, one bpm more per twelfth of a quarter"""
+    b = 60 + 12 * (Fraction(u) + 1)
+    if b.denominator != 1:
+        raise ValueError("tempo position %s is not on the 1/12 quarter grid" % (u,))
+    return int(b)
+
+
+def tempo_part(pid, pidx, kind, pickup, carries):
+    """one part of 2/4 (optional one-quarter pickup, two bars) whose divisions follow `kind`; candidate tempo
+    positions: every quarter, the first division after every divisions value starts to hold, the last division
+    of the part; `carries(i, u)` says whether the i-th candidate (ascending) gets a Tempo object.
+    Returns (part spec, candidate positions in quarters relative to the first downbeat)."""
+    u0 = -1 if pickup else 0
+    cuts = [u0] + [u for u, _ in kind[1:]] + [TEMPO_END]
+    tl = []
+    t = 0
+    for i, (_, d) in enumerate(kind):
+        tl.append((cuts[i], cuts[i + 1], d, t))
+        t += (cuts[i + 1] - cuts[i]) * d
+
+    def T(u):
+        u = Fraction(u)
+        for a, b, d, t0 in tl:
+            if a <= u < b or (u == b == TEMPO_END):
+                x = (u - a) * d
+                if x.denominator != 1:
+                    raise ValueError("position %s not representable" % (u,))
+                return t0 + int(x)
+        raise ValueError(u)
+
+    cand = {Fraction(u) for u in range(u0, TEMPO_END)}
+    cand |= {a + Fraction(1, d) for a, b, d, _ in tl}
+    cand.add(TEMPO_END - Fraction(1, tl[-1][2]))
+    cand = sorted(u for u in cand if u < TEMPO_END)
+    objs = [ts(0, 2, 4)]
+    objs += ([measure(0, T(-1), T(0))] if pickup else []) + [measure(1, T(0), T(2)), measure(2, T(2), T(4))]
+    objs += [ks(0, pidx - 1, "major"), ks(T(2), pidx - 2, "minor")]
+    for i, u in enumerate(cand):
+        if carries(i, u):
+            objs.append(tempo(T(u), tempo_bpm(u), "q"))
+    base = 43 + 12 * pidx
+    for k, u in enumerate(range(u0, TEMPO_END)):
+        objs.append(note("p%dq%d" % (pidx, k), T(u), T(u + 1), base + 2 * (k % 3), 1))
+    for k, u in enumerate(([-1] if pickup else []) + [0, 2]):
+        objs.append(note("p%dm%d" % (pidx, k), T(u), T(u) + 1, base + 7 + k, 2))
+    return part(pid, [(a_t, d) for _, _, d, a_t in tl], objs), cand
+
+
+def tempo_score(kinds, pickups, pattern, grouped=False):
+    """score of len(kinds) parts; pattern: ("only", c) = part c carries all its candidates, ("alt", k) = part c
+    carries its i-th candidate iff (i + c + k) is a multiple of the number of parts, ("one", c, i) = a single mark"""
+    n = len(kinds)
+
+    def carries(c):
+        if pattern[0] == "only":
+            return lambda i, u: c == pattern[1]
+        if pattern[0] == "alt":
+            return lambda i, u: (i + c + pattern[1]) % n == 0
+        return lambda i, u: c == pattern[1] and i == pattern[2]
+
+    parts = [tempo_part("P%d" % (c + 1), c, kinds[c], pickups[c], carries(c))[0] for c in range(n)]
+    if grouped:
+        parts = [group(parts[:2])] + parts[2:]
+    return {"parts": parts}
+
+
+def gen_tempoparts(kinds=None, single_kinds=None, triples=TEMPO_TRIPLES):
+    """tempo marks in scores of several parts whose quarter maps differ (divisions per part, a divisions change
+    inside a part, pickup in one part only): every musical position x every carrier part"""
+    kinds = TEMPO_KINDS if kinds is None else kinds
+    single_kinds = kinds[:3] if single_kinds is None else single_kinds
+    i = 0
+    # (a) many marks: all ordered pairs of quarter-map kinds x pickup per part x carrier pattern
+    for k0 in kinds:
+        for k1 in kinds:
+            for pk in product((False, True), repeat=2):
+                for pattern in (("only", 0), ("only", 1), ("alt", 0), ("alt", 1)):
+                    yield dict(score=tempo_score((k0, k1), pk, pattern, grouped=i % 3 == 2),
+                               tag="tempoparts kinds=%s pickups=%s marks=%s" % ([list(map(list, k)) for k in (k0, k1)], list(pk), list(pattern)))
+                    i += 1
+    # (b) exactly one mark: every candidate position of every carrier
+    for k0 in single_kinds:
+        for k1 in single_kinds:
+            for pk in product((False, True), repeat=2):
+                for c in (0, 1):
+                    ncand = len(tempo_part("P", c, (k0, k1)[c], pk[c], lambda i, u: False)[1])
+                    for j in range(ncand):
+                        yield dict(score=tempo_score((k0, k1), pk, ("one", c, j), grouped=i % 3 == 2),
+                                   tag="tempoparts kinds=%s pickups=%s marks=%s" % (
+                                       [list(map(list, k)) for k in (k0, k1)], list(pk), ["one", c, j]))
+                        i += 1
+    # (c) three parts
+    for tr in triples:
+        ks3 = tuple(kinds[x % len(kinds)] for x in tr)
+        for pk in ((False, False, False), (True, True, True), (True, False, False), (False, True, False), (False, False, True)):
+            for pattern in (("only", 0), ("only", 1), ("only", 2), ("alt", 0), ("alt", 1), ("alt", 2)):
+                yield dict(score=tempo_score(ks3, pk, pattern, grouped=i % 2 == 1),
+                           tag="tempoparts kinds=%s pickups=%s marks=%s" % ([list(map(list, k)) for k in ks3], list(pk), list(pattern)))
+                i += 1
+
+
 def option_scores():
     """three representative scores for the option product"""
     out = []
